@@ -119,9 +119,16 @@ def run(run, binfo):
         infos.append((ds, ex))
     for (ds, ex), ans in zip(infos, run_batch(reqs)):
         run.evaluations += 1
-        text = ''.join(generator._sort_and_format_by_section({'sec': ds}, 'yaml', include_help=True,
-                                                              exclude_deprecated=ex))
-        jparts = list(generator._sort_and_format_by_section({'sec': ds}, 'json'))
+        desc = {'defaults': [(d.name, d.check_str, d.description) for d in ds], 'exclude_deprecated': ex}
+        try:
+            text = ''.join(generator._sort_and_format_by_section({'sec': ds}, 'yaml', include_help=True,
+                                                                  exclude_deprecated=ex))
+            jparts = list(generator._sort_and_format_by_section({'sec': ds}, 'json'))
+        except Exception as e:   # noqa
+            run.violation('sample-crash', 'the sample generator fails with %s: %s' % (type(e).__name__, str(e)[:200]),
+                          {'kind': 'failing-input', 'suite': 'spec-c17', 'input': desc, 'expected': 'a sample file',
+                           'observed': type(e).__name__})
+            continue
         jtext = '{\n    ' + ',\n    '.join(jparts) + '\n}\n'
         # model
         lines = []
